@@ -40,6 +40,10 @@ type Result struct {
 	Probes       map[string]int `json:"probes,omitempty"`
 	Checks       map[string]int `json:"checks,omitempty"`
 	Violation    *Violation     `json:"violation,omitempty"`
+	// Extra holds violations that do not end the run's checking (at most one per
+	// class+sig): used for behaviour that may be a listed known finding, so that
+	// it cannot mask another violation of the same run.
+	Extra []Violation `json:"extra,omitempty"`
 	Inconclusive string         `json:"inconclusive,omitempty"`
 	Nontrivial   bool           `json:"nontrivial"`
 	Sample       interface{}    `json:"sample,omitempty"`
@@ -65,6 +69,7 @@ type Run struct {
 	probes  map[string]int
 	checks  map[string]int
 	viol    *Violation
+	extra   []Violation
 	inconcl string
 	Sample  interface{}
 	SimSecs float64
@@ -135,6 +140,18 @@ func (r *Run) Violate(class, sig, format string, a ...interface{}) {
 	r.mu.Unlock()
 }
 
+// Finding records a violation without ending the run's checking.
+func (r *Run) Finding(class, sig, format string, a ...interface{}) {
+	r.mu.Lock()
+	defer r.mu.Unlock()
+	for _, e := range r.extra {
+		if e.Class == class && e.Sig == sig {
+			return
+		}
+	}
+	r.extra = append(r.extra, Violation{Class: class, Sig: sig, Msg: fmt.Sprintf(format, a...), Step: r.Step})
+}
+
 func (r *Run) Violated() bool {
 	r.mu.Lock()
 	defer r.mu.Unlock()
@@ -166,11 +183,18 @@ func (r *Run) Finish(res *Result) {
 	res.Probes = r.probes
 	res.Checks = r.checks
 	res.Violation = r.viol
+	res.Extra = r.extra
+	if res.Violation == nil && len(r.extra) > 0 {
+		// a run whose only violations are "extra" ones still counts as violating
+		v := r.extra[0]
+		res.Violation = &v
+		res.Extra = r.extra[1:]
+	}
 	res.Inconclusive = r.inconcl
 	res.Nontrivial = r.Nontrivial
 	res.Sample = r.Sample
 	res.Overrun = r.T.Overrun
-	if r.KeepTrace || r.viol != nil {
+	if r.KeepTrace || r.viol != nil || len(r.extra) > 0 {
 		res.Trace = r.trace
 	}
 }
